@@ -33,14 +33,15 @@ pub enum Verdict {
 pub fn inspect(d: &Dfir) -> Verdict {
     let text = d.text.clone();
     let line_node = d.line_node.clone();
-    let r = std::panic::catch_unwind(move || inspect_inner(&text, &line_node));
+    let names = d.node_names.clone();
+    let r = std::panic::catch_unwind(move || inspect_inner(&text, &line_node, &names));
     match r {
         Ok(v) => v,
         Err(p) => Verdict::Reject(format!("front end panicked: {}", vcommon::panic_msg(&p))),
     }
 }
 
-fn inspect_inner(text: &str, line_node: &[Option<usize>]) -> Verdict {
+fn inspect_inner(text: &str, line_node: &[Option<usize>], names: &std::collections::BTreeMap<usize, String>) -> Verdict {
     let code: DfirCode = match syn::parse_str(text) {
         Ok(c) => c,
         Err(e) => return Verdict::Reject(format!("parse error: {e}")),
@@ -71,6 +72,16 @@ fn inspect_inner(text: &str, line_node: &[Option<usize>]) -> Verdict {
                     continue;
                 }
                 let Some(Some(ir)) = line_node.get(line - 1) else { continue };
+                // a line may carry the IR node's operator plus a type anchor (`identity::<T>()`):
+                // only the operator with the IR node's own name counts
+                if let Some(want) = names.get(ir) {
+                    if node.to_name_string() != *want {
+                        continue;
+                    }
+                }
+                if nodes.contains_key(ir) {
+                    continue;
+                }
                 let role = match colors.get(nid) {
                     Some(c) => {
                         let s = format!("{c:?}");
